@@ -568,8 +568,29 @@ func (c *Client) stepPut(op adapt.Op, got adapt.Outcome) []Diff {
 	if ds != nil {
 		return ds
 	}
+	if d := ccfItem(op, got, t.Items[key]); d != nil {
+		return d
+	}
 	if proceed {
 		t.Items[key] = op.Item.Clone()
+	}
+	return nil
+}
+
+// ccfItem: "when requested, the failure carries the unchanged stored item" (PutItem and DeleteItem; UpdateItem
+// has the same rule inline). Only the SDK v2 input has the request field, callers set RetCCF for it only.
+func ccfItem(op adapt.Op, got adapt.Outcome, stored val.Item) []Diff {
+	if got.Class != adapt.ClsCondFailed {
+		return nil
+	}
+	if got.CCFItem != nil && !val.ItemsEqual(got.CCFItem, stored) {
+		return diff("ccf-item", "ConditionalCheckFailed carried %s, stored item is %s", got.CCFItem.Canon(), stored.Canon())
+	}
+	if op.RetCCF && stored != nil && got.CCFItem == nil {
+		return diff("ccf-item-missing", "%s: ALL_OLD requested on condition failure but no item carried; stored %s", op.Kind, stored.Canon())
+	}
+	if !op.RetCCF && got.CCFItem != nil {
+		return diff("ccf-item-unrequested", "%s: the failure carries the stored item although the request did not ask for it", op.Kind)
 	}
 	return nil
 }
@@ -792,6 +813,9 @@ func (c *Client) stepDelete(op adapt.Op, got adapt.Outcome) []Diff {
 	proceed, ds := applyCondClass(op, got, res)
 	if ds != nil {
 		return ds
+	}
+	if d := ccfItem(op, got, stored); d != nil {
+		return d
 	}
 	if !proceed {
 		return nil
